@@ -184,7 +184,8 @@ class PSFModelMachine(Machine):
                 val = rng.pick([1, 2, 3, [2, 3], 4])
             else:
                 val = rng.pick([None, [rng.uniform(1, st.nx - 2),
-                                       rng.uniform(1, st.ny - 2)]])
+                                       rng.uniform(1, st.ny - 2)],
+                                'bad3', 'badnan'])
             return {'op': 'setattr', 'actor': k, 'name': nm, 'value': val}
         if r < 0.30:
             return self._gen_set(rng, st, k)
@@ -382,6 +383,16 @@ class PSFModelMachine(Machine):
                 out = call(setattr, m, 'oversampling',
                            tuple(v) if isinstance(v, list) else v)
                 a.a['ovs'] = list(v) if isinstance(v, list) else [v, v]
+            elif nm == 'origin' and v in ('bad3', 'badnan'):
+                # rejected assignment: must raise and leave the model as
+                # it was (checked by every later evaluation)
+                bad = [1.0, 2.0, 3.0] if v == 'bad3' else [np.nan, 2.0]
+                out = call(setattr, m, 'origin', bad)
+                st.stats.fault('reject')
+                if not isinstance(out, Raised):
+                    raise Violation('reject', 'origin',
+                                    f'origin={bad} accepted')
+                return
             elif nm == 'origin':
                 out = call(setattr, m, 'origin', v)
                 a.a['origin'] = v
